@@ -3,10 +3,13 @@ parameter map.
 
 Theorems: coq/Props/C09.v (models coq/Model/Crop.v, coq/Model/CropArc.v).
 Ties:
-  * translator: the methods construct objects (outside py2v's subset, recorded
-    per run, group GenCrop); their building blocks Line.point / bpoints /
-    split_bezier translate (GenBezierSeg, GenBezierN) and the hand models are
-    proved equal to compositions of the generated definitions (GenAgree/Crop.v);
+  * translator: tools/py2v.py renders a constructor call as the tuple of its
+    arguments, so group GenCrop translates Line.cropped/split/reversed,
+    Quadratic/CubicBezier.reversed/split, Arc.reversed and Arc.cropped (only
+    crop_bezier — symbolic t-branching + the radialrange oracle — is outside);
+    GenAgree/Crop.v proves them equal to the hand models, and the hand models
+    equal to compositions of the generated Line.point / bpoints / split_bezier
+    (GenBezierSeg, GenBezierN);
   * correspondence, computed INSIDE Coq:
       - Bezier segments in exact rationals (NumQ): reversed control points
         (exact), split pieces, cropped control points for the recorded oracle
@@ -17,8 +20,13 @@ Ties:
         (delta' = (t1-t0) delta, theta' = theta + t0 delta mod 360) and the
         property on the re-built arcs within 1e-7*size;
       - Path.cropped / Path.reversed structure, exactly, on a symbolic segment
-        type (which pieces, which are originals, crop parameters, exceptions);
-  * the property statement evaluated on the implementation (floats).
+        type (which pieces, which are originals, crop parameters, exceptions), for
+        the variant (ix, hw, tz) of Path.cropped the implementation runs (probes);
+        length fractions of reversed() of a fresh path and of a path whose length
+        cache was filled first = reversed list of the fractions;
+  * the property statement evaluated on the implementation (floats), incl.
+    Path.reversed() — fresh and with caches filled by length/point/T2t/cropped —
+    against a FRESH Path of the reversed segments (point, T2t, length, crops).
 """
 import math, warnings, json
 from fractions import Fraction as Fr
@@ -594,6 +602,12 @@ def run_arc(rep, rng, n, tmp, fx, replay_case=None):
 OKDEF_PATH = r'''
 From SVP Require Import Model.Crop.
 Definition N := NumQ.
+(* the variants of Path.cropped the implementation runs, detected by behavioural probes:
+   IX = indices from T2t instead of self.index(seg); HW = hand-overs do not wrap around an
+   end / past the other end; TZ = cropped(T0, 0) on a closed path is cropped(T0, 1) *)
+Definition IX : bool := __IX__.
+Definition HW : bool := __HW__.
+Definition TZ : bool := __TZ__.
 Inductive sym := SO (i : nat) | SC (i : nat) (a b : Qc).
 Definition nthn (l : list nat) (i : nat) : nat := nth i l i.
 (* == on the path's segments: equality classes computed from Python's == *)
@@ -627,13 +641,17 @@ Definition obs_eq (ident : list nat) (p : piece sym Qc) (o : obs_t) : bool :=
   Bool.eqb (p_orig p) oo && Nat.eqb (nthn ident (p_idx p)) oi && Qc_eq_bool (p_a p) oa && Qc_eq_bool (p_b p) ob.
 (* case: number of segments, == classes, identity classes, T0, T1, T2t(T0), T2t(T1),
          isclosed(), failing crop calls, observed result, observed reversed() order *)
+(* ... and the length fractions (_lengths) of the path, of reversed() of a fresh path and of
+   reversed() of a path whose length cache was filled first *)
 Definition casety : Type :=
   (nat * list nat * list nat * Qc * Qc * res (Z * Qc) * res (Z * Qc) * res bool * list fail_t
-   * res (list obs_t) * list nat)%type.
+   * res (list obs_t) * list nat * (list Qc * list Qc * list Qc))%type.
+Definition e12 : Qc := Q2Qc (1 # 1000000000000).
 Definition ok (c : casety) : nat :=
-  let '(n, cls, ident, T0, T1, r0, r1, closed, fails, obs, o_rev) := c in
+  let '(n, cls, ident, T0, T1, r0, r1, closed, fails, obs, o_rev, fracs) := c in
+  let '(fr, rfr_fresh, rfr_warm) := fracs in
   let segs := map SO (seq 0 n) in
-  let m := path_cropped N (sym_crop ident fails) (sym_eq cls) (np_atol N) (np_rtol N) segs T0 T1 r0 r1 closed in
+  let m := path_cropped_v N (sym_crop ident fails) (sym_eq cls) (np_atol N) (np_rtol N) IX HW TZ segs T0 T1 r0 r1 closed in
   first_fail
    [ (match m, obs with
       | Ok _, Ok _ => true
@@ -642,13 +660,43 @@ Definition ok (c : casety) : nat :=
      (match m, obs with
       | Ok ps, Ok os => lclose2 (obs_eq ident) ps os
       | _, _ => true end, 2);                                    (* same pieces: original?, which segment, crop parameters *)
-     (lclose Nat.eqb (path_reversed (fun i => i) (seq 0 n)) o_rev, 3)   (* reversed(): segment i is the reversed segment n-1-i *)
+     (lclose Nat.eqb (path_reversed (fun i => i) (seq 0 n)) o_rev, 3);  (* reversed(): segment i is the reversed segment n-1-i *)
+     (* C09_path_reversed_lengths: the segment lengths of reversed() are the reversed list
+        (per-segment invariance): fresh object, and object reversed after its cache was filled *)
+     (lclose (qclose e12) rfr_fresh (path_reversed (fun x => x) fr), 4);
+     (lclose (qclose e12) rfr_warm (path_reversed (fun x => x) fr), 5)
    ].
 '''
-PATH_OBS = {1: 'Path.cropped returns / raises as the model', 2: 'Path.cropped pieces (originals, segment, crop parameters)',
+PATH_OBS = {4: 'length fractions of reversed() of a FRESH path = reversed list of the fractions',
+            5: 'length fractions of reversed() of a path whose length cache was filled = reversed list of the fractions',
+            1: 'Path.cropped returns / raises as the model', 2: 'Path.cropped pieces (originals, segment, crop parameters)',
             3: 'Path.reversed order'}
 ERRMAP = {'AssertionError': 'EAssert', 'ValueError': 'EValue', 'IndexError': 'EIndex', 'BugException': 'EBug',
           'ZeroDivisionError': 'EZeroDiv', 'RuntimeError': 'ERuntime'}
+
+
+def detect_crop_variants():
+    """which of the three repairs of Path.cropped does the implementation carry?"""
+    from svgpathtools import Path, Line
+    ix = hw = tz = False
+    try:
+        tw = Path(Line(0, 1), Line(1, 1 + 1j), Line(1 + 1j, 1j), Line(1j, 0), Line(0, 1), Line(1, 0))
+        ix = len(tw.cropped(2 / 15, 43 / 60)) == 5
+    except Exception:
+        pass
+    try:
+        st = Path(Line(0, 1), Line(1, 1 + 1j), Line(1 + 1j, 2 + 1j))
+        hw = len(st.cropped(1 - 2.0 ** -22, 1.0)) == 1
+    except Exception:
+        pass
+    try:
+        sq = Path(Line(0, 1), Line(1, 1 + 1j), Line(1 + 1j, 1j), Line(1j, 0))
+        r = sq.cropped(0.375, 0.0)
+        # hw alone ends with the ORIGINAL last segment; tz re-runs cropped(T0, 1): a cropped copy
+        tz = len(r) == 3 and r[-1] is not sq[3]
+    except Exception:
+        pass
+    return ix, hw, tz
 
 
 def make_seg(rng, a, b, kind):
@@ -854,7 +902,7 @@ def observe_path(path, T0, T1):
     return o
 
 
-def path_term(path, T0, T1, o):
+def path_term(path, T0, T1, o, fracs=((), (), ())):
     n = len(path)
     r0 = res_term(o['r0'], lambda kt: '(%d%%Z, %s)' % (kt[0], qc(kt[1])))
     r1 = res_term(o['r1'], lambda kt: '(%d%%Z, %s)' % (kt[0], qc(kt[1])))
@@ -871,9 +919,10 @@ def path_term(path, T0, T1, o):
         # identical objects in several positions: positions cannot be told apart; compare modulo identity
         exp = list(reversed(range(n)))
         orev = [exp[k] if k < n and o['ident'][exp[k]] == j else j for k, j in enumerate(orev)]
-    return '(%d, %s, %s, %s, %s, %s, %s, %s, %s, %s, %s)' % (
+    fr = '(%s, %s, %s)' % tuple(coq_list([qc(x) for x in f]) for f in fracs)
+    return '(%d, %s, %s, %s, %s, %s, %s, %s, %s, %s, %s, %s)' % (
         n, coq_list([str(c) for c in o['cls']]), coq_list([str(c) for c in o['ident']]), qc(T0), qc(T1),
-        r0, r1, closed, fails, obs, coq_list([str(j) for j in orev]))
+        r0, r1, closed, fails, obs, coq_list([str(j) for j in orev]), fr)
 
 
 def path_size(path):
@@ -893,7 +942,7 @@ def isclose(a, b):
     return abs(a - b) <= 1e-8 + 1e-5 * abs(b)
 
 
-def holds_path(path, T0, T1, how, o, fam):
+def holds_path(path, T0, T1, how, o, fam, variants=(False, False, False)):
     """the property on the implementation; returns [(key, what, detail)]"""
     from svgpathtools import Arc
     out = []
@@ -921,11 +970,42 @@ def holds_path(path, T0, T1, how, o, fam):
                 t2t_bad = True
             # an np.isclose hand-over that moves the point (t != edge) or wraps the index
             # ((len-1)+1) % len = 0 resp. (0-1) % len = len-1
-            if isclose(t, edge) and (t != edge or (nm == 'r0' and k == n - 1) or (nm == 'r1' and k == 0 and T != 0)):
+            if isclose(t, edge) and (t != edge or (nm == 'r0' and k == n - 1) or (nm == 'r1' and k == 0 and T != 0)
+                                     or not cont):
+                # (on a discontinuous path even an exact hand-over jumps across the gap)
                 hand.append(nm)
 
+    def arc_tiny():
+        # a piece that is a crop of an Arc over a tiny extent, re-parameterised to a point / full turn
+        from svgpathtools import Arc as _Arc
+        try:
+            for piece, (og, idx, a, b) in zip(o['out'][1], o.get('pieces', [])):
+                src = path[idx] if idx < n else None
+                if not og and isinstance(piece, _Arc) and isinstance(src, _Arc):
+                    ext = abs(src.delta * (b - a))
+                    if ext < 1e-4 and abs(abs(piece.delta) - ext) > 1e-3:
+                        return True
+        except Exception:
+            pass
+        return False
+
+    def arc_degenerate():
+        # a crop of an Arc whose two end points round to the same number: Arc() asserts start != end
+        from svgpathtools import Arc as _Arc
+        try:
+            for i, a, b, e in o.get('fails', []):
+                if i < n and isinstance(path[i], _Arc) and e == 'AssertionError' and path[i].point(a) == path[i].point(b):
+                    return True
+        except Exception:
+            pass
+        return False
+
     def classify(default):
-        if dup:
+        if arc_degenerate():
+            return 'arc-cropped-degenerate-raises'
+        if arc_tiny():
+            return 'arc-cropped-tiny-extent-full-turn'
+        if dup and not variants[0]:
             # did index() pick an earlier equal segment?
             for nm in ('r0', 'r1'):
                 if o[nm][0] == 'ok':
@@ -951,6 +1031,12 @@ def holds_path(path, T0, T1, how, o, fam):
             elif not closed:
                 expected = 'ValueError'
         if T0 == 1 and 0 < T1 < 1 and not cont:
+            expected = 'AssertionError'
+        if (variants[1] and T1 < T0 and o['r0'][0] == 'ok' and o['r1'][0] == 'ok'
+                and o['r0'][1][0] == n - 1 and o['r0'][1][1] == 1.0 and o['r1'][1][0] == 0 and isclose(o['r1'][1][1], 0.0)
+                and exc == 'AssertionError'):
+            # repaired hand-over: a crop from the very end of the path to (within tolerance of) its
+            # start is the empty piece seg.cropped(1, 1); Bezier segments assert t0 < t1
             expected = 'AssertionError'
         if exc != expected:
             out.append((classify('path-cropped-raises'),
@@ -994,7 +1080,7 @@ def holds_path(path, T0, T1, how, o, fam):
     if bad:
         # whole-path / wrong-piece anomalies vs a mere snap of the end point
         gross = (('length' in bad and errs['length'] > 1e-4 * max(1.0, path.length())) or ('joined' in bad)
-                 or max(errs.get('start', 0.0), errs.get('end', 0.0)) > 1e-4 * size)
+                 or (cont and max(errs.get('start', 0.0), errs.get('end', 0.0)) > 1e-4 * size))
         key = classify('path-cropped-wrong')
         if key == 'path-cropped-isclose-handover':
             key += '-wrong-pieces' if gross else '-snap'
@@ -1033,6 +1119,109 @@ def holds_reversed(path, o):
     return out
 
 
+WARMERS = ['length', 'point', 'T2t', 'cropped', 'length-partial', 'length-error', 'point-then-length']
+
+
+def warm(path, how, rng):
+    """fill the length cache of [path] the way a user would"""
+    try:
+        if how == 'length':
+            path.length()
+        elif how == 'point':
+            path.point(rng.uniform(0.05, 0.95))
+        elif how == 'T2t':
+            path.T2t(rng.uniform(0.05, 0.95))
+        elif how == 'cropped':
+            path.cropped(0.25, 0.75)
+        elif how == 'length-partial':
+            path.length(0.25, 0.5)
+        elif how == 'length-error':
+            path.length(error=1e-6, min_depth=3)
+        else:
+            path.point(0.5)
+            path.length()
+    except Exception:
+        pass
+
+
+def fractions_of(p):
+    """the path's length fractions (_lengths); falls back to t2T differences"""
+    try:
+        p._calc_lengths()
+        return [float(x) for x in p._lengths]
+    except Exception:
+        return [float(p.t2T(i, 1.0) - p.t2T(i, 0.0)) for i in range(len(p))]
+
+
+def reversed_vs_fresh(path, rng):
+    """Path.reversed() of a fresh Path and of a Path whose caches were filled first, compared
+    with a FRESH Path built from the reversed segments: point(T), T2t, length, crops.
+    Returns (violations, fractions, fractions of reversed fresh, fractions of reversed warmed)."""
+    from svgpathtools import Path, Arc
+    out = []
+    segs = list(path)
+    n = len(segs)
+    has_arc = any(isinstance(s, Arc) for s in segs)
+    size = path_size(path)
+    tol = (1e-7 if has_arc else 1e-9) * size
+    how = rng.choice(WARMERS)
+    Ts = [rng.random() for _ in range(4)] + [k / 32.0 for k in (1, 5, 16, 27, 31)] + [0.0, 1.0]
+    Ta, Tb = sorted([rng.uniform(0.02, 0.98), rng.uniform(0.02, 0.98)])
+    if Tb - Ta < 1e-3:
+        Ta, Tb = 0.125, 0.5
+    fr = rfr = [[], []]
+    try:
+        ref = Path(*[s.reversed() for s in reversed(segs)])
+        p_fresh = Path(*segs)
+        p_warm = Path(*segs)
+        warm(p_warm, how, rng)
+        fr = fractions_of(Path(*segs))
+        total = ref.length()
+    except Exception as ex:
+        return [('path-reversed-raises', 'building the reversed reference raised %r' % ex, {})], [], [], []
+    rfr = []
+    for label, p in (('fresh', p_fresh), ('cache filled by ' + how, p_warm)):
+        key = 'path-reversed-vs-fresh-object' if label == 'fresh' else 'path-reversed-stale-cache'
+        try:
+            rp = p.reversed()
+            bad = []
+            for T in Ts:
+                d = abs(rp.point(T) - ref.point(T))
+                if d > tol:
+                    bad.append('point(%r) off by %.3g' % (T, d))
+                    break
+                d2 = abs(rp.point(T) - p.point(1 - T))
+                if d2 > max(tol, 1e-6 * size):
+                    bad.append('point(%r) differs from point(1-T) of the original by %.3g' % (T, d2))
+                    break
+            for T in Ts[:6]:
+                k1, t1 = rp.T2t(T)
+                k2, t2 = ref.T2t(T)
+                if k1 != k2 or abs(t1 - t2) > 1e-9:
+                    bad.append('T2t(%r) = %r, a fresh path gives %r' % (T, (k1, t1), (k2, t2)))
+                    break
+            if abs(rp.length() - total) > 1e-10 * max(1.0, total):
+                bad.append('length() = %r, fresh %r' % (rp.length(), total))
+            la, lb = rp.length(Ta, Tb), ref.length(Ta, Tb)
+            if abs(la - lb) > 1e-9 * max(1.0, total):
+                bad.append('length(%r,%r) = %r, fresh %r' % (Ta, Tb, la, lb))
+            try:
+                ca, cb = rp.cropped(Ta, Tb), ref.cropped(Ta, Tb)
+                if len(ca) != len(cb) or abs(ca.start - cb.start) > tol or abs(ca.end - cb.end) > tol:
+                    bad.append('cropped(%r,%r) runs %r -> %r, fresh %r -> %r' % (Ta, Tb, ca.start, ca.end, cb.start, cb.end))
+            except Exception:
+                pass
+            rfr.append(fractions_of(rp))
+            if bad:
+                out.append((key, 'Path.reversed() [%s] does not behave like a fresh Path of the reversed segments: %s'
+                            % (label, '; '.join(bad)), {'history': label}))
+        except Exception as ex:
+            rfr.append([])
+            out.append((key, 'Path.reversed() [%s] raised %s' % (label, type(ex).__name__), {'history': label}))
+    return out, fr, rfr[0], rfr[1]
+
+
+
 def corpus_paths():
     """the closed examples of Proofs/CropRefute.v, replayed on the implementation"""
     from svgpathtools import Path, Line
@@ -1048,7 +1237,7 @@ def corpus_paths():
             (sq(), 0.875, 0.0, 'wrap', 'corpus-to-zero')]
 
 
-def run_path(rep, rng, n, tmp, replay_case=None):
+def run_path(rep, rng, n, tmp, replay_case=None, variants=(False, False, False)):
     import svgpathtools
     cases, meta, fams, hows = [], [], {}, {}
     found = {}
@@ -1084,15 +1273,18 @@ def run_path(rep, rng, n, tmp, replay_case=None):
                                                            {'kind': 'exception', 'path': path_repr(path), 'T0': T0, 'T1': T1,
                                                             'error': o['out'][2]}])[0] += 1
             continue
-        cases.append(path_term(path, T0, T1, o))
+        rv_viol, fr, rf1, rf2 = reversed_vs_fresh(path, rng)
+        cases.append(path_term(path, T0, T1, o, (fr, rf1, rf2)))
         meta.append((path, T0, T1, how, fam, o))
         if o['out'][0] == 'ok' and len(o['pieces']) > 1:
             nontriv.add((path_repr(path), T0, T1))
-        for key, what, detail in holds_path(path, T0, T1, how, o, fam) + holds_reversed(path, o):
+        for key, what, detail in holds_path(path, T0, T1, how, o, fam, variants) + holds_reversed(path, o) + rv_viol:
             found.setdefault(key, [0, what, dict(detail, kind='property', path=path_repr(path), T0=T0, T1=T1,
                                                  T0_hex=common.fhex(T0), T1_hex=common.fhex(T1), family=fam,
                                                  T2t_T0=str(o['r0']), T2t_T1=str(o['r1']))])[0] += 1
-    fails, errors = common.run_cases(tmp, '', 'casety', OKDEF_PATH, cases,
+    okdef_path = (OKDEF_PATH.replace('__IX__', coq_bool(variants[0])).replace('__HW__', coq_bool(variants[1]))
+                  .replace('__TZ__', coq_bool(variants[2])))
+    fails, errors = common.run_cases(tmp, '', 'casety', okdef_path, cases,
                                      shard=max(8, (len(cases) + 15) // 16), prefix='path')
     for e in errors:
         rep.violation('correspondence case file (paths) failed to evaluate', {'kind': 'cases', 'error': e},
@@ -1146,8 +1338,10 @@ def run(rep, tier, seed, replay=None):
         if not replay or ra:
             narc, nant, afams = run_arc(rep, rng, na, tmp, fx, ra)
         if not replay or rp:
-            npa, npnt, pfams, phows, pmeta = run_path(rep, rng, npth, tmp, rp)
-        rep.cov['evaluations'] = nbez * 9 + narc * 13 + npa * 3
+            variants = detect_crop_variants()
+            rep.cov['path_cropped_variants_ix_hw_tz'] = list(variants)
+            npa, npnt, pfams, phows, pmeta = run_path(rep, rng, npth, tmp, rp, variants)
+        rep.cov['evaluations'] = nbez * 9 + narc * 13 + npa * 5
         rep.cov['traces_validated_against_impl'] = nbez + narc + npa
         rep.cov['distinct_nontrivial'] = nbnt + nant + npnt
         rep.cov['rule'] = ('Bezier: Line/Quadratic/Cubic from the pools %s (incl. self-intersecting cubics cropped at the '
